@@ -171,6 +171,15 @@ CLAIMED = {
         design_ref="DESIGN.md §5 C11",
         note="Observation values are fixed functions of the event rank (small integers, at most 6 per replication when exact values are requested: TLC integers are 32 bit).",
     ),
+    "C04": dict(
+        technique="TLA+ model checking (TLC) of DEVS.tla over the full command alphabet + SimThreads.tla interleavings, bound to the real simulator by replay, interposition scheduling and trace validation",
+        category="model_checking",
+        text="(a) all command sequences (initialize, start, step, stop, bounded runs, end_replication, cleanup, pause) up to the bound: refusals "
+             "change nothing, notification-stream invariants, ENDED final, run thread gone after ENDED/cleanup; replayed on the real simulators and "
+             "validated from recorded random command sequences. (b) see DESIGN.md: thread-level model of caller and run thread.",
+        design_ref="DESIGN.md §5 C04",
+        note="(a) commands at quiescence; (b) assumes a runnable thread takes a step within the code's one-second waits.",
+    ),
 }
 
 NOT_APPLICABLE = {
